@@ -44,13 +44,13 @@ Qed.
 
 (* on a valid scenario, a case whose recorded observations are the model's own is not a violation *)
 Lemma oracle_accepts_model : forall G E, g_ndarray G = true -> empty_table_ok E = true ->
-  forall f r s nd ops plan d0 rp0 os,
+  forall f r s nd ops plan d0 rp0 os aft,
   valid_scenario r s nd ops ->
   scenario Z 0%Z G E f r s nd ops (prog_of plan) d0 = Ran os ->
   case_violates {| k_form := f; k_raw := r; k_start := s; k_nd := nd; k_ops := ops; k_d0 := d0;
-                   k_rp0 := rp0; k_plan := plan; k_obs := IRan os |} = false.
+                   k_rp0 := rp0; k_plan := plan; k_obs := IRan os; k_after := aft |} = false.
 Proof.
-  intros G E HN HE f r s nd ops plan d0 rp0 os Hv Hs.
+  intros G E HN HE f r s nd ops plan d0 rp0 os aft Hv Hs.
   destruct (st_runs Z 0%Z G E HN f r s nd ops (prog_of plan) d0 Hv) as [qs [st [H1 [H2 [H3 H4]]]]].
   rewrite H4 in Hs. injection Hs as <-.
   unfold case_violates, ro0. cbn [k_obs k_ops k_raw k_start k_nd].
@@ -62,12 +62,12 @@ Qed.
 
 (* ... and an exception before any model executed is not a violation when some schedule the caller installed
    was not valid *)
-Lemma oracle_accepts_rejection : forall f r s nd ops plan d0 rp0 stage,
+Lemma oracle_accepts_rejection : forall f r s nd ops plan d0 rp0 stage aft,
   ~ valid_scenario r s nd ops ->
   case_violates {| k_form := f; k_raw := r; k_start := s; k_nd := nd; k_ops := ops; k_d0 := d0;
-                   k_rp0 := rp0; k_plan := plan; k_obs := IRejected stage 0 |} = false.
+                   k_rp0 := rp0; k_plan := plan; k_obs := IRejected stage 0; k_after := aft |} = false.
 Proof.
-  intros f r s nd ops plan d0 rp0 stage Hnv.
+  intros f r s nd ops plan d0 rp0 stage aft Hnv.
   unfold case_violates, ro0. cbn [k_obs k_ops k_raw k_start k_nd]. rewrite Z.eqb_refl. simpl andb.
   apply negb_false_iff. apply negb_true_iff.
   destruct (forallb ro_valid_b (intended_all {| r_times := r; r_start := s; r_nd := nd |} ops)) eqn:Ef; [|reflexivity].
